@@ -153,8 +153,9 @@ type c13 struct {
 	ts   *turnScript
 	conn net.PacketConn
 	// expected read queue (FIFO) of what the server relayed and the client must hand to ReadFrom
-	queue []relayed
-	peers []*net.UDPAddr
+	queue          []relayed
+	peers          []*net.UDPAddr
+	deadlineBroken bool
 }
 
 type relayed struct {
@@ -398,22 +399,37 @@ func (x *c13) runUDP(tier string, caseNo int) {
 			x.settle()
 			x.drainAndCompare()
 			x.rec.FP("inbound/unknown-channel")
-		case op == 6: // read deadline with an empty queue
+		case op == 6: // read deadlines with an empty queue: set, time out, set again (re-arm), clear
 			x.drainAndCompare()
-			d := time.Duration(1+rng.Intn(5000)) * time.Millisecond
-			t0 := time.Now()
-			_ = conn.SetReadDeadline(t0.Add(d))
-			buf := make([]byte, 2000)
-			_, _, err := conn.ReadFrom(buf)
-			el := time.Since(t0)
-			var ne net.Error
-			if err == nil || !errors.As(err, &ne) || !ne.Timeout() {
-				x.rec.Violate("readfrom-deadline", "no-timeout", "ReadFrom on an empty queue with a %v deadline returned err=%v", d, err)
-			} else if el != d {
-				x.rec.Violate("readfrom-deadline", "instant", "ReadFrom deadline %v fired after %v", d, el)
+			setDeadline := x.setDeadline
+			rounds := 1 + rng.Intn(3)
+			for r := 0; r < rounds; r++ {
+				d := time.Duration(1+rng.Intn(5000)) * time.Millisecond
+				t0 := time.Now()
+				if !setDeadline(pick(rng, []string{"SetReadDeadline", "SetReadDeadline", "SetDeadline"}), t0.Add(d)) {
+					return
+				}
+				if rng.Intn(4) == 0 {
+					// move the deadline before it expires
+					d = d + time.Duration(1+rng.Intn(2000))*time.Millisecond
+					if !setDeadline("SetReadDeadline", t0.Add(d)) {
+						return
+					}
+				}
+				buf := make([]byte, 2000)
+				_, _, err := conn.ReadFrom(buf)
+				el := time.Since(t0)
+				var ne net.Error
+				if err == nil || !errors.As(err, &ne) || !ne.Timeout() {
+					x.rec.Violate("readfrom-deadline", "no-timeout", "ReadFrom on an empty queue with a %v deadline returned err=%v", d, err)
+				} else if el != d {
+					x.rec.Violate("readfrom-deadline", "instant", "ReadFrom deadline %v fired after %v (round %d)", d, el, r)
+				}
 			}
-			_ = conn.SetReadDeadline(time.Time{})
-			x.rec.FP("deadline")
+			if !setDeadline("SetReadDeadline", time.Time{}) {
+				return
+			}
+			x.rec.FP("deadline/rounds=%d", rounds)
 		case op == 7: // time passes: permission refresh (2 min) and binding refresh/check timers run
 			d := pick(rng, []time.Duration{time.Second, 31 * time.Second, 121 * time.Second, 6 * time.Minute})
 			time.Sleep(d)
@@ -439,7 +455,9 @@ func (x *c13) runUDP(tier string, caseNo int) {
 	// Close: ReadFrom must fail afterwards, WriteTo too
 	_ = conn.Close()
 	buf := make([]byte, 100)
-	_ = conn.SetReadDeadline(time.Now().Add(time.Second))
+	if !x.setDeadline("SetReadDeadline", time.Now().Add(time.Second)) {
+		return
+	}
 	if _, _, err := conn.ReadFrom(buf); err == nil {
 		x.rec.Violate("readfrom-after-close", "nil-error", "ReadFrom returned no error after Close")
 	}
@@ -465,6 +483,33 @@ func errClass(err error) string {
 }
 
 func (x *c13) settle() { time.Sleep(time.Millisecond) }
+
+// setDeadline calls a deadline setter of the relayed socket under a (virtual-time) watch: it
+// must return at once whatever happened to the previous deadline. false = it blocked (reported).
+func (x *c13) setDeadline(what string, t time.Time) bool {
+	if x.deadlineBroken {
+		return false
+	}
+	conn := x.conn
+	done := make(chan struct{})
+	go func() {
+		if what == "SetDeadline" {
+			_ = conn.SetDeadline(t)
+		} else {
+			_ = conn.SetReadDeadline(t)
+		}
+		close(done)
+	}()
+	select {
+	case <-done:
+		return true
+	case <-time.After(10 * time.Second):
+		x.deadlineBroken = true
+		x.rec.Violate("readfrom-deadline", "setter-blocked", "%s did not return (10 s of virtual time) when called after an earlier deadline had expired or been moved", what)
+
+		return false
+	}
+}
 
 type bindingView struct {
 	Number uint16
@@ -518,7 +563,9 @@ func (x *c13) drainAndCompare() {
 	}
 	buf := make([]byte, 70000)
 	for len(x.queue) > 0 {
-		_ = x.conn.SetReadDeadline(time.Now().Add(50 * time.Millisecond))
+		if !x.setDeadline("SetReadDeadline", time.Now().Add(50*time.Millisecond)) {
+			return
+		}
 		n, from, err := x.conn.ReadFrom(buf)
 		if err != nil {
 			x.rec.Violate("readfrom-lost", "missing", "ReadFrom returned %v while %d relayed datagrams were still owed (next: %q from %s)", err, len(x.queue), head(x.queue[0].payload), x.queue[0].from)
@@ -537,11 +584,13 @@ func (x *c13) drainAndCompare() {
 		x.rec.Ev("readfrom-matched")
 	}
 	// nothing else may be queued
-	_ = x.conn.SetReadDeadline(time.Now().Add(10 * time.Millisecond))
+	if !x.setDeadline("SetReadDeadline", time.Now().Add(10*time.Millisecond)) {
+		return
+	}
 	if n, from, err := x.conn.ReadFrom(buf); err == nil {
 		x.rec.Violate("readfrom-wrong", "extra", "ReadFrom returned %q from %s that the server never relayed", head(buf[:n]), from)
 	}
-	_ = x.conn.SetReadDeadline(time.Time{})
+	x.setDeadline("SetReadDeadline", time.Time{})
 }
 
 // liveness: the client's inbound path still works (a Binding transaction completes).
@@ -560,6 +609,66 @@ func (x *c13) liveness(when string) {
 		x.rec.Violate("inbound-blocked", when, "client transaction did not complete %s", when)
 	}
 	x.rec.Ev("liveness-transactions")
+}
+
+// runStampede: several goroutines make the very first WriteTo to the same new peer at the same
+// moment, for a long row of new peers (all on one already-permitted IP, so that nothing
+// serialises the writers before they reach the binding table). Every peer must end up with
+// exactly one channel number.
+func (x *c13) runStampede(tier string) {
+	conn, err := x.rc.Client.Allocate()
+	if err != nil {
+		x.rec.Inconclusive("allocate against scripted server failed: %v", err)
+
+		return
+	}
+	x.conn = conn
+	x.ts.mu.Lock()
+	x.ts.noSilence = true
+	x.ts.mu.Unlock()
+	ip := net.IPv4(10, 2, 0, 1).To4()
+	x.peers = append(x.peers, &net.UDPAddr{IP: ip, Port: 7000})
+	if _, err := conn.WriteTo(c13Payload(0, 0, 20, rand.New(rand.NewSource(1))), x.peers[0]); err != nil {
+		x.rec.Inconclusive("first write failed: %v", err)
+
+		return
+	}
+	npeers := 150
+	if tier == "thorough" {
+		npeers = 600
+	}
+	const writers = 6
+	for k := 1; k <= npeers; k++ {
+		x.peers = append(x.peers, &net.UDPAddr{IP: ip, Port: 7000 + k})
+	}
+	for k := 1; k <= npeers && len(x.rec.Violations()) == 0; k++ {
+		start := make(chan struct{})
+		var wg sync.WaitGroup
+		for g := 0; g < writers; g++ {
+			wg.Add(1)
+			go func(g int) {
+				defer wg.Done()
+				prng := rand.New(rand.NewSource(int64(k*100 + g)))
+				payload := c13Payload(k, k*100+g, 20, prng)
+				<-start
+				_, _ = conn.WriteTo(payload, x.peers[k])
+			}(g)
+		}
+		close(start)
+		wg.Wait()
+		if k%25 == 0 {
+			x.settle()
+			x.checkHookTable()
+		}
+	}
+	x.settle()
+	x.checkHookTable()
+	x.checkWireLog()
+	x.rec.EvN("stampede-peers", npeers)
+	x.rec.FP("writeto/stampede")
+	_ = conn.Close()
+	x.conn = nil
+	x.rec.SetSample(map[string]any{"kind": "first-writer-stampede", "peers": npeers, "writers": writers})
 }
 
 func runC13(t *testing.T, rng *rand.Rand, rec *sim.Rec, tier string, caseNo int) {
@@ -597,6 +706,12 @@ func runC13(t *testing.T, rng *rand.Rand, rec *sim.Rec, tier string, caseNo int)
 	defer x.close()
 	if caseNo%7 == 6 {
 		x.runTCPAttempts()
+
+		return
+	}
+	if caseNo%20 == 9 {
+		x.ts.permW, x.ts.bindW = [5]int{1, 0, 0, 0, 0}, [5]int{1, 0, 0, 0, 0}
+		x.runStampede(tier)
 
 		return
 	}
